@@ -44,7 +44,8 @@ def req_cases(prop, abstract, rnd, tier):
             c = dict(a)
             c.update(codec=rnd.choice(["json", "proto"]), gzip=rnd.random() < 0.25, spell=rnd.choice(["json", "proto"]),
                      invalid="", table=(d % 2 == 0), stream=rnd.random() < 0.15, fam="tc", zeropath=(prop == "C07" and d % 3 == 2),
-                     framing=rnd.choice(["", "", "unsized", "chunked"]), compsub=False, ws=False)
+                     framing=rnd.choice(["", "", "unsized", "chunked"]), compsub=False, ws=False,
+                     accept=rnd.choice(["", "", "*/*", "other", "other", "same"]))
             out.append(c)
         if prop == "C07":
             # a query key that names a sub-field of the path-bound field (takes effect when that field is a wrapper,
@@ -84,6 +85,12 @@ def resp_cases(rnd, tier):
                                 acceptenc=rnd.choice(["", "", "gzip", "gzip, deflate", "identity", "*", "br;q=1, gzip;q=0.5"]),
                                 junk=rnd.choice(["", "", "", ";;;", "q=0.5", "text/", "\"quoted\""]),
                                 hdr=rnd.choice(["", "", "set", "send"])))
+    # requests that name a content type nobody registered (body-less GET): the reply codec comes from Accept alone
+    for acc in rnd.sample(accepts, 150 if tier == "quick" else 3000) + [[dict(type="*/*", q=10)], [dict(type="application/*", q=5)],
+                                                                       [dict(type="text/html", q=10), dict(type="*/*", q=8)]]:
+        for reqct in ["text/plain", "application/x-www-form-urlencoded", "application/json; charset=utf-8", "image/png"]:
+            out.append(dict(fam="resp", accept=acc, lines=1, reqct=reqct, kind=rnd.choice(["msg", "empty"]), respbody="",
+                            acceptenc="", junk="", hdr=""))
     # the unregistered pseudo type larking keeps in its codec table
     for reqct in ["application/json", "application/protobuf"]:
         for kind in ["msg", "httpbody"]:
